@@ -36,6 +36,41 @@ def register(probe):
           doc="prefix of a commodity sub-directive alias line")
     probe("cdetailFormatPrefix", D, r'CommodityDetail::Format\(v\) => writeln!\(f, "([^"{]*)\{\}", self', conv=str, lean_type="String",
           doc="prefix of a commodity sub-directive format line")
+    # --- parser character classes (tied to the models by lean/Okane/Generated/ParamsTie.lean) ------------
+    def rust_bytes(lit):
+        """decode the inside of a Rust b"…" / "…" literal with the simple escapes used in the source"""
+        out = []
+        i = 0
+        while i < len(lit):
+            if lit[i] == "\\":
+                out.append({"t": "\t", "n": "\n", "r": "\r", "\\": "\\", '"': '"', "'": "'", "0": "\0"}[lit[i + 1]])
+                i += 2
+            else:
+                out.append(lit[i])
+                i += 1
+        return "".join(out)
+
+    def char_list(src):
+        """'a' | 'b' …  or  'a', 'b' … -> the characters"""
+        import re as _re
+        return "".join(rust_bytes(m) for m in _re.findall(r"'((?:\\.|[^'\\]))'", src))
+
+    probe("nonCommodityChars", "core/src/parse/primitive.rs", r'const NON_COMMODITY_CHARS: &\[u8\] = b"((?:\\.|[^"\\])*)";',
+          conv=rust_bytes, lean_type="String", doc="characters that end a commodity name")
+    probe("commentPrefixChars", "core/src/parse/directive.rs", r"fn is_comment_prefix<[^{]*\{\s*matches!\(c\.as_char\(\), ([^)]*)\)",
+          conv=char_list, lean_type="String", doc="characters that start a comment line")
+    probe("accountStopChars", "core/src/parse/posting.rs", r'\(opt\(" "\), take_till\(1\.\., b"((?:\\.|[^"\\])*)"\)\)',
+          conv=rust_bytes, lean_type="String", doc="characters that end a word of a posting account")
+    probe("accountEndChars", "core/src/parse/posting.rs", r'\(opt\(" "\), one_of\(\(([^)]*)\)\)\)\.take\(\)',
+          conv=char_list, lean_type="String", doc="after at most one blank, these end the posting account")
+    probe("lotNoteStopChars", "core/src/parse/posting.rs", r"let note = paren\(take_till\(0\.\., \[([^\]]*)\]\)\)",
+          conv=char_list, lean_type="String", doc="characters a lot note cannot contain")
+    probe("lineOrSemiStopChars", "core/src/parse/character.rs", r"take_till\(1\.\., \[([^\]]*)\]\)",
+          conv=char_list, lean_type="String", doc="till_line_ending_or_semi stops at these")
+    probe("numberTokenExtra", "core/src/parse/primitive.rs", r"c\.is_ascii_digit\(\) \|\| c == '(.)' \|\| c == '.'",
+          conv=str, lean_type="String", doc="first non-digit character allowed inside a number token")
+    probe("numberTokenExtra2", "core/src/parse/primitive.rs", r"c\.is_ascii_digit\(\) \|\| c == '.' \|\| c == '(.)'",
+          conv=str, lean_type="String", doc="second non-digit character allowed inside a number token")
     # --- C11 / loader ------------------------------------------------------------------------
     # --- others ------------------------------------------------------------------------------
     pass
